@@ -651,6 +651,28 @@ class Prov:
 
 
 # ---------------------------------------------------------------------- term utilities
+def substitute(t, binding, recv=None):
+    """replace ("param", f, name) leaves per binding {(f, name): term} and ("self", C) by recv"""
+    if not isinstance(t, tuple):
+        return t
+    k = t[0]
+    if k == "param" and (t[1], t[2]) in binding:
+        return binding[(t[1], t[2])]
+    if k == "self" and recv is not None:
+        return recv
+    if k == "call":
+        return ("call", t[1], [substitute(a, binding, recv) for a in t[2]], {kk: substitute(v, binding, recv) for kk, v in t[3].items()}, t[4], substitute(t[5], binding, recv) if t[5] is not None else None)
+    if k == "attr":
+        return ("attr", substitute(t[1], binding, recv), t[2], t[3] if len(t) > 3 else None)
+    if k == "elem":
+        return ("elem", substitute(t[1], binding, recv), substitute(t[2], binding, recv) if t[2] is not None else None)
+    if k == "op":
+        return ("op", t[1], [substitute(a, binding, recv) for a in t[2]])
+    if k == "alt":
+        return ("alt", [substitute(a, binding, recv) for a in t[1]])
+    return t
+
+
 def subterms(t):
     if not isinstance(t, tuple):
         return
